@@ -502,6 +502,7 @@ func run(c *vkit.Collector, rng *vkit.Rng, budget int) {
 	r.fixed()
 	r.approxStream(budget)
 	r.bigCellStream(budget)
+	r.reuseStream(budget)
 	kinds := []string{"point", "edge", "cell", "index"}
 	nIdx := 60 * budget
 	for i := 0; i < nIdx; i++ {
